@@ -2,7 +2,8 @@
    (coq/Gen/Stats.v) equal their documented definitions.  The generator also checks, by shape, which expression feeds
    which entry of statistics_ and the Wald p-value recipe (a change there is a broken translation obligation). *)
 From Coq Require Import Reals Lra List.
-From PG Require Import Base.Ops Gen.Stats Proofs.C08.
+From PG Require Import Base.Ops Gen.Stats Proofs.C08 Proofs.C08Cor.
+Import ListNotations.
 Open Scope R_scope.
 
 Theorem C08_AIC : forall known ll edof, Gen_AIC known ll edof = -2 * ll + 2 * edof + (if known then 0 else 2).
@@ -43,3 +44,25 @@ Theorem C08_wald : forall cdf_chi2 cdf_f score rank n edof,
   Gen_wald_unknown cdf_f score rank n edof = 1 - cdf_f (score / rank) rank (n - edof).
 Proof. intros; split; reflexivity. Qed.
 Print Assumptions C08_wald.
+
+(* consequences a reader of the summary relies on (Proofs/C08Cor.v) *)
+Theorem C08_information_criteria_order : forall AIC ll l2 edof n,
+  (0 <= edof -> edof + 2 < n -> AIC <= Gen_AICc AIC edof n) /\
+  Gen_AIC false ll edof = Gen_AIC true ll edof + 2 /\
+  (forall known, ll < l2 -> Gen_AIC known l2 edof < Gen_AIC known ll edof).
+Proof. intros. split; [apply AICc_ge_AIC|split; [apply AIC_scale_charge|intros; apply AIC_decreasing_in_ll; assumption]]. Qed.
+Print Assumptions C08_information_criteria_order.
+Theorem C08_ranges : forall n dev edof full_d null_d,
+  (0 < n -> 0 <= dev -> n - Gen_gamma_default * edof <> 0 -> 0 <= Gen_GCV Gen_gamma_default n dev edof) /\
+  (0 < null_d ->
+     (0 <= full_d -> Gen_explained_deviance full_d null_d <= 1) /\
+     (Gen_explained_deviance full_d null_d = 1 <-> full_d = 0) /\
+     (0 <= Gen_explained_deviance full_d null_d <-> full_d <= null_d)).
+Proof. intros. split; [apply GCV_nonneg|apply explained_deviance_range]. Qed.
+Print Assumptions C08_ranges.
+(* rows (y, mu, unit deviance): the squared deviance residuals of a data set add up to its deviance *)
+Theorem C08_residuals_sum_to_deviance : forall rows, List.Forall row_ok rows -> sum_sq_resid rows = sum_dev rows.
+Proof. exact resid_squares_sum_to_deviance. Qed.
+Print Assumptions C08_residuals_sum_to_deviance.
+Example C08_rows_example : List.Forall row_ok [(1, 3, 2); (2, 2, 0); (5, 1, 7)]%R.
+Proof. exact rows_ok_example. Qed.
